@@ -189,6 +189,13 @@ let () =
            Buffer.add_string buf (Printf.sprintf "{\"wf\":%s,\"enc\":" (if wf then "true" else "false"));
            pr_opt buf enc; Buffer.add_string buf ",\"wire\":"; pr_opt buf wire;
            Buffer.add_string buf ",\"dec\":"; pr_opt buf dec; Buffer.add_char buf '}'
+       | "UPD" ->
+           let j = rd_json () in
+           let (((((dec, rx), wf), j1), j1w), j2) = M.run_update j in
+           let b x = if x then "true" else "false" in
+           Buffer.add_string buf (Printf.sprintf "{\"dec\":%s,\"rx\":%s,\"wf\":%s,\"j1\":" (b dec) (b rx) (b wf));
+           pr_opt buf j1; Buffer.add_string buf ",\"j1w\":"; pr_opt buf j1w;
+           Buffer.add_string buf ",\"j2\":"; pr_opt buf j2; Buffer.add_char buf '}'
        | "DEC" ->
            let j = rd_json () in
            Buffer.add_string buf "{\"dec\":"; pr_opt buf (M.run_dec j); Buffer.add_char buf '}'
